@@ -1,0 +1,87 @@
+//go:build verif
+// +build verif
+
+package rockredis
+
+// Lemma functions for the deductive verifier in /verif (govc).  They are never
+// called by production code; the verifier checks them modularly against the
+// contracts of the functions they call (never against the callee bodies), and
+// being ordinary Go they can also be executed as replay drivers.
+
+func lemmaCollSubKeyRoundTrip(dt byte, table, key, sub []byte) (byte, []byte, []byte, []byte, error) {
+	ek := encodeCollSubKey(dt, table, key, sub)
+	return decodeCollSubKey(ek)
+}
+
+func lemmaHashKeyRoundTrip(table, key, field []byte) ([]byte, []byte, []byte, error) {
+	ek := hEncodeHashKey(table, key, field)
+	return hDecodeHashKey(ek)
+}
+
+// ---- pure facts about lexicographic order (no code involved) ----
+
+// if stop is start with its last byte incremented, every x with start <= x < stop has start as a prefix
+func lemmaLexRangeCore(start, stop, x []byte) {}
+
+// a prefix is lexicographically <= the whole
+func lemmaLexPrefixLE(p, b []byte) {}
+
+// a < b when they first differ at k with a[k] < b[k]
+func lemmaLexLessAt(a, b []byte, k int) {}
+
+// ---- range containment / exactness for collection element keys, from the key shapes alone ----
+
+func lemmaCollShapeRange(start, stop, ek, x []byte, dt byte, table, key, sub []byte) {
+	lemmaLexPrefixLE(start, ek)
+	lemmaLexLessAt(ek, stop, len(start)-1)
+	lemmaLexRangeCore(start, stop, x)
+}
+
+func lemmaHashRange(table, key, field, x []byte) (start, stop, ek []byte) {
+	start, stop, ek = hEncodeStartKey(table, key), hEncodeStopKey(table, key), hEncodeHashKey(table, key, field)
+	lemmaCollShapeRange(start, stop, ek, x, HashType, table, key, field)
+	return
+}
+
+func lemmaSetKeyRoundTrip(table, key, member []byte) ([]byte, []byte, []byte, error) {
+	return sDecodeSetKey(sEncodeSetKey(table, key, member))
+}
+
+func lemmaZSetKeyRoundTrip(table, key, member []byte) ([]byte, []byte, []byte, error) {
+	return zDecodeSetKey(zEncodeSetKey(table, key, member))
+}
+
+func lemmaListKeyRoundTrip(table, key []byte, seq int64) (t []byte, k []byte, s int64, err error) {
+	return lDecodeListKey(lEncodeListKey(table, key, seq))
+}
+
+func lemmaSetRange(table, key, member, x []byte) (start, stop, ek []byte) {
+	start, stop, ek = sEncodeStartKey(table, key), sEncodeStopKey(table, key), sEncodeSetKey(table, key, member)
+	lemmaCollShapeRange(start, stop, ek, x, SetType, table, key, member)
+	return
+}
+
+func lemmaZSetRange(table, key, member, x []byte) (start, stop, ek []byte) {
+	start, stop, ek = zEncodeStartSetKey(table, key), zEncodeStopSetKey(table, key), zEncodeSetKey(table, key, member)
+	lemmaCollShapeRange(start, stop, ek, x, ZSetType, table, key, member)
+	return
+}
+
+// keys of different collection types never collide
+func lemmaTypeDisjoint(dt1, dt2 byte, t1, k1, s1, t2, k2, s2 []byte) ([]byte, []byte) {
+	return encodeCollSubKey(dt1, t1, k1, s1), encodeCollSubKey(dt2, t2, k2, s2)
+}
+
+// whole-table range [encodeDataTableStart, encodeDataTableEnd): exactness and containment
+func lemmaTableRange(dataType byte, table, x []byte) (start, stop []byte) {
+	start, stop = encodeDataTableStart(dataType, table), encodeDataTableEnd(dataType, table)
+	lemmaLexRangeCore(start, stop, x)
+	return
+}
+
+func lemmaTableRangeContainsColl(dt byte, table, key, sub []byte) (start, stop, ek []byte) {
+	start, stop, ek = encodeDataTableStart(dt, table), encodeDataTableEnd(dt, table), encodeCollSubKey(dt, table, key, sub)
+	lemmaLexPrefixLE(start, ek)
+	lemmaLexLessAt(ek, stop, len(start)-1)
+	return
+}
